@@ -30,6 +30,7 @@ func init() {
 			{ID: "C10.7", Desc: "never (nil, nil)", Run: ruleC10_7, MinSites: 2},
 			{ID: "C10.8", Desc: "logging is inert", Run: ruleC10_8, MinSites: 3},
 			{ID: "C10.9", Desc: "bounded waits on the foreground path", Run: func(c *Ctx) { ruleBoundedWaits(c, "C10.9", true) }, MinSites: 3},
+			{ID: "C10.12", Desc: "string indexing at i+k is guarded by a length test that covers offset k", Run: ruleC10_12, MinSites: 1},
 			{ID: "C10.11", Desc: "the entry reader never returns (nil entry, nil error); the entry handed to the validation handler is never nil", Run: ruleC10_11, MinSites: 2},
 			{ID: "C10.10", Desc: "no mutex is left locked on any return (a failing store operation must not wedge the next RoundTrip)", Run: func(c *Ctx) { ruleC14_1(c); renameRule(c, "C14.1", "C10.10") }, MinSites: 4},
 		},
@@ -1111,4 +1112,113 @@ func (c *Ctx) constructsError(call *ssa.Call) bool {
 		}
 	}
 	return ok && n > 0
+}
+
+// ruleC10_12: request-controlled strings (URL escapes, directive values) are scanned byte by byte; `s[i+k]` panics when
+// i+k == len(s). For every string index expression of the form i+k (k a constant >= 0) on the exchange, some dominating
+// decision must bound i+k' < len(s) with k' >= k (a `<=` test covers one less). Indexes that are not of this form (loop
+// variables of a range, constants) are left to the other rules.
+func ruleC10_12(c *Ctx) {
+	desc := "every `s[i+k]` is dominated by a test that implies i+k < len(s)"
+	n := 0
+	var fns []*ssa.Function
+	for fn := range c.A.Reach {
+		fns = append(fns, fn)
+	}
+	sort.Slice(fns, func(i, j int) bool { return FuncName(fns[i]) < FuncName(fns[j]) })
+	offsetOf := func(v ssa.Value) (base ssa.Value, k int64, ok bool) {
+		if b, isB := v.(*ssa.BinOp); isB && b.Op == token.ADD {
+			if kk, isK := constInt(b.Y); isK {
+				return b.X, kk, true
+			}
+			if kk, isK := constInt(b.X); isK {
+				return b.Y, kk, true
+			}
+		}
+		return v, 0, true
+	}
+	for _, fn := range fns {
+		instrsOf(fn, func(in ssa.Instruction) {
+			// s[i] on a string is an Index instruction (a Lookup in older SSA forms)
+			type strIndex struct {
+				ssa.Value
+				X, Index ssa.Value
+				blk      *ssa.BasicBlock
+			}
+			var lk strIndex
+			switch y := in.(type) {
+			case *ssa.Index:
+				lk = strIndex{y, y.X, y.Index, y.Block()}
+			case *ssa.Lookup:
+				lk = strIndex{y, y.X, y.Index, y.Block()}
+			default:
+				return
+			}
+			if !isStringType(lk.X.Type()) {
+				return
+			}
+			base, k, _ := offsetOf(lk.Index)
+			if _, isConst := base.(*ssa.Const); isConst {
+				return
+			}
+			if k == 0 {
+				return // plain s[i]: loop-bounded in this code base; not the pattern this rule is about
+			}
+			n++
+			covered := int64(-1)
+			for _, dc := range dominatingConds(lk.blk) {
+				for _, lf := range condLeaves(dc.cond, dc.onTrue) {
+					bo, ok := lf.v.(*ssa.BinOp)
+					if !ok {
+						continue
+					}
+					op := bo.Op
+					if !lf.val {
+						op = negTok(op)
+					}
+					l, r := bo.X, bo.Y
+					// normalise to  <expr> OP len(s)
+					isLen := func(v ssa.Value) bool {
+						call, ok := v.(*ssa.Call)
+						if !ok {
+							return false
+						}
+						b, isB := call.Call.Value.(*ssa.Builtin)
+						return isB && b.Name() == "len" && c.An.sameCanon(call.Call.Args[0], lk.X)
+					}
+					if isLen(l) {
+						l, r = r, l
+						op = swapTok(op)
+					}
+					if !isLen(r) {
+						continue
+					}
+					b2, k2, _ := offsetOf(l)
+					if !c.An.sameCanon(b2, base) && b2 != base {
+						continue
+					}
+					switch op {
+					case token.LSS:
+						if k2 > covered {
+							covered = k2
+						}
+					case token.LEQ:
+						if k2-1 > covered {
+							covered = k2 - 1
+						}
+					}
+				}
+			}
+			where := c.P.ShortName(fn) + "@" + c.P.InstrPos(in)
+			key := fmt.Sprintf("index-guarded fn=%s k=%d", c.P.ShortName(fn), k)
+			if covered >= k {
+				c.Pass("C10.12", key, desc, where)
+			} else {
+				c.Fail("C10.12", key, desc, fmt.Sprintf("%s: `%s` reads offset +%d but the dominating tests only cover +%d; a string ending just there (a URL query ending in `%%2`) panics in the caller's goroutine", where, lk.String(), k, covered))
+			}
+		})
+	}
+	if n == 0 {
+		c.Pass("C10.12", "index-guarded", desc, "no constant-offset string indexing on the exchange")
+	}
 }
